@@ -470,7 +470,7 @@ def trace_tie(ctx, tbinary, jobs, env, stats, cap, shared, tried=()):
                                      {"case": c["name"], "class": c["cls"], "text": c["text"], "opts": rec["opts"], "config": cc, "trace": True, "root": i, "event": j,
                                       "disc": [qs(o["c"][0]), qs(o["c"][1]), qs(o["r"])], "site": SITE.get(o["site"]), "max_bits": c.get("max_bits")}, True))
                     else: st["trace:obligation:undecided"] += 1
-            if len(sm) < 2:
+            if len(sm) < 2 and rec["traces"]:
                 tr0 = rec["traces"][0]
                 sm.append({"case": c["name"], "opts": rec["opts"], "config": cc, "root0_classes": "".join(o["cls"] for o in tr0)[:120],
                            "root0_sites": "".join(o["site"] for o in tr0)[:120], "obligations": len(obl), "observations": sum(len(t) for t in rec["traces"])})
